@@ -217,6 +217,8 @@ type Target struct {
 	mu    sync.Mutex
 	Colls map[string]*TColl // key db/name
 	Calls []string
+	// InfoGate, when set, is called at the start of every GetCollectionInfo (outside the lock)
+	InfoGate func(db, name string)
 }
 
 func NewTarget() *Target { return &Target{Colls: map[string]*TColl{}} }
@@ -244,6 +246,9 @@ func (t *Target) SetFail(db, name string, on bool) {
 }
 
 func (t *Target) GetCollectionInfo(ctx context.Context, collectionName, databaseName string) (*model.CollectionInfo, error) {
+	if g := t.InfoGate; g != nil { // scheduler gate of a driver (may block); default off
+		g(databaseName, collectionName)
+	}
 	t.mu.Lock()
 	defer t.mu.Unlock()
 	t.Calls = append(t.Calls, "coll:"+key(databaseName, collectionName))
